@@ -137,8 +137,9 @@ def one_fit(case, ctx, rng, cfg, st, kind, n, N, rows, bases, run_i):
     tags = {"state": kind, "with_bases": bases is not None, "run": run_i}
     try:
         with mon:
-            ctx.lib("fit", st.fit, data, epochs=cfg["epochs"], pos_batch_size=cfg["pos"], neg_batch_size=cfg["neg"],
-                    k=cfg["k"], lr=0.01, callbacks=[rec], tags=tags, **kw)
+            start = 1 + (case["rep"] % 5 == 4) * 2  # some runs resume at a later epoch index
+            ctx.lib("fit", st.fit, data, epochs=start + cfg["epochs"] - 1, starting_epoch=start, pos_batch_size=cfg["pos"],
+                    neg_batch_size=cfg["neg"], k=cfg["k"], lr=0.01, callbacks=[rec], tags=tags, **kw)
     finally:
         undo()
     ctx.count("protected_write_ops_inspected", mon.write_ops)
